@@ -25,6 +25,7 @@ Defines two types of Janus (two faced) Spheres as scattering primitives.
 import numpy as np
 from .scatterer import CenteredScatterer, Indicators
 from .sphere import Sphere
+from ..errors import InvalidScatterer
 from ...core.math import rotation_matrix
 
 class JanusSphere_Uniform(CenteredScatterer):
@@ -52,7 +53,13 @@ class JanusSphere_Uniform(CenteredScatterer):
         self.n = n
         self.r = r
         self.rotation = rotation
-        self.center = center
+        super().__init__(center)
+        try:
+            if np.any(np.array(self.r) < 0):
+                raise InvalidScatterer(self, "a radius is negative")
+        except (TypeError, ValueError):
+            # sizes given as priors are not checked, as for a Sphere
+            pass
 
     @property
     def indicators(self):
@@ -96,7 +103,13 @@ class JanusSphere_Tapered(CenteredScatterer):
         self.n = n
         self.r = r
         self.rotation = rotation
-        self.center = center
+        super().__init__(center)
+        try:
+            if np.any(np.array(self.r) < 0):
+                raise InvalidScatterer(self, "a radius is negative")
+        except (TypeError, ValueError):
+            # sizes given as priors are not checked, as for a Sphere
+            pass
 
     @property
     def indicators(self):
